@@ -343,65 +343,73 @@ def rule_r2(prog, res) -> None:
 
 
 def rule_r3(prog, res) -> None:
-    """every pair count is dominated by a tree build with the role-correct binning"""
+    """every pair count is preceded by a tree build with the role-correct binning, on every path of autocorrelate /
+    crosscorrelate and for every combination of optional inputs (symbolic store: loops over literal lists of
+    catalogs are unrolled, conditional lists and locals are substituted)"""
+    from .c01 import _catalog_args, _measure_paths
+
     total = 0
     for name in ("autocorrelate", "crosscorrelate"):
         fi = prog.func(name)
         res.touch(fi)
-        fn = fi.node
-        cfg = cfg_of(fn)
-        counts = []  # (node, call, [catalog arg names])
-        for n in cfg.nodes:
-            for c in n.calls():
-                f = c.func
-                if isinstance(f, ast.Attribute) and f.attr in ("count_pairs", "count_pairs_optional"):
-                    cats = []
-                    for a in c.args:
-                        if isinstance(a, ast.IfExp):
-                            a = a.body
-                        if isinstance(a, ast.Name):
-                            cats.append(a.id)
-                        else:
-                            raise AnalysisError(f"C07.R3: catalog argument {unparse(a)} of {f.attr} in {name} is not a plain name")
-                    counts.append((n, c, cats))
-        if not counts:
+        cfg_param = next((q for q in fi.param_names() if q == "config" or "config" in q), None)
+        runs = _measure_paths(prog, fi)
+        if not runs:
+            raise AnalysisError(f"C07.R3: no returning path of {name}")
+        # catalogs that supply the binned trees: first positional catalog of some count
+        pos0 = set()
+        n_counts = 0
+        for env, p in runs:
+            for ev in p.calls():
+                if ev.callee in ("count_pairs", "count_pairs_optional"):
+                    n_counts += 1
+                    cats = _catalog_args(ev.expr, env)
+                    if cats and cats[0] and not cats[0].startswith("?"):
+                        pos0.add(cats[0])
+        if n_counts == 0:
             raise AnalysisError(f"C07.R3: no pair counts in {name}")
-        pos0 = {cats[0] for _, _, cats in counts if cats}
-        builds = {}  # var -> [(node, call)]
-        for n in cfg.nodes:
-            for c in n.calls():
-                f = c.func
-                if isinstance(f, ast.Attribute) and f.attr == "build_trees" and isinstance(f.value, ast.Name):
-                    builds.setdefault(f.value.id, []).append((n, c))
-        for n, c, cats in counts:
-            for pos, var in enumerate(cats):
-                total += 1
-                want_binned = var in pos0
-                blds = builds.get(var, [])
-                site = res.site(fi, f"{unparse(c)[:50]} / {var}")
-                if not blds:
-                    res.violation("C07.R3", fi, c, f"catalog '{var}' is counted but no trees are built for it in this function: stale trees of an earlier measurement (other binning / closed side) are used", key_extra=f"{name}-{var}-no-build")
+        reported = set()
+        for env, p in runs:
+            calls = p.calls()
+            for i, ev in enumerate(calls):
+                if ev.callee not in ("count_pairs", "count_pairs_optional"):
                     continue
-                # dominance on paths where var is not None
-                bnodes = [b for b, _ in blds]
-                reach = pruned_reach(cfg, cfg.entry, {var: "SOME"}, avoid=lambda x: x in bnodes, defs=single_def_resolver(fn))
-                if n.id in reach:
-                    res.violation("C07.R3", fi, c, f"pair count on '{var}' is reachable without a preceding build_trees on it: trees cached by an earlier measurement are used as they are", key_extra=f"{name}-{var}-count-before-build")
+                cats = _catalog_args(ev.expr, env)
+                if any(c is None for c in cats):
                     continue
-                # role-correct binning of every build that can reach the count without another build in between
-                bad = None
-                for bn, bc in blds:
+                for var in cats:
+                    if var.startswith("?"):
+                        raise AnalysisError(f"C07.R3: catalog argument {var[1:]} of {ev.callee} in {name} is not a catalog parameter")
+                    key = (id(ev.node), var)
+                    want_binned = var in pos0
+                    builds = [b for b in calls[:i] if b.callee == "build_trees" and isinstance(b.expr.func, ast.Attribute) and isinstance(b.expr.func.value, ast.Name) and b.expr.func.value.id == var]
+                    if not builds:
+                        anywhere = any(b.callee == "build_trees" and isinstance(b.expr.func.value, ast.Name) and b.expr.func.value.id == var for _e, q in runs for b in q.calls())
+                        if ("bad",) + key not in reported:
+                            reported.add(("bad",) + key)
+                            total += 1
+                            if anywhere:
+                                res.violation("C07.R3", fi, ev.node, f"pair count on '{var}' is reachable without a preceding build_trees on it: trees cached by an earlier measurement are used as they are", key_extra=f"{name}-{var}-count-before-build")
+                            else:
+                                res.violation("C07.R3", fi, ev.node, f"catalog '{var}' is counted but no trees are built for it in this function: stale trees of an earlier measurement (other binning / closed side) are used", key_extra=f"{name}-{var}-no-build")
+                        continue
+                    bad = None
+                    bc = builds[-1].expr  # the build whose trees the count uses
                     a0 = bc.args[0] if bc.args else kwarg(bc, "binning")
                     is_none = a0 is None or (isinstance(a0, ast.Constant) and a0.value is None)
-                    from_cfg = a0 is not None and depends_on(fn, a0, lambda x: isinstance(x, ast.Attribute) and x.attr == "edges" and depends_on(fn, x, lambda y: isinstance(y, ast.Name) and y.id == "config"))
+                    from_cfg = a0 is not None and any(isinstance(y, ast.Attribute) and y.attr == "edges" and any(isinstance(z, ast.Name) and z.id == cfg_param for z in ast.walk(y)) for y in ast.walk(a0))
                     if want_binned and not from_cfg:
-                        bad = (bc, f"'{var}' supplies the redshift-binned trees but is built with binning={unparse(a0) if a0 is not None else 'None'} (not config.binning.edges)")
+                        bad = f"'{var}' supplies the redshift-binned trees but is built with binning={unparse(a0)[:40] if a0 is not None else 'None'} (not config.binning.edges)"
                     if not want_binned and not is_none:
-                        bad = (bc, f"'{var}' supplies the unbinned tree but is built with a redshift binning: bin i of the reference would only be paired with bin i of '{var}'")
-                if bad:
-                    res.violation("C07.R3", fi, bad[0], bad[1], key_extra=f"{name}-{var}-wrong-role")
-                else:
-                    res.ok("C07.R3", site, f"dominated by build_trees({'config edges' if want_binned else 'None'}) on every path where {var} is not None")
+                        bad = f"'{var}' supplies the unbinned tree but is built with a redshift binning: bin i of the reference would only be paired with bin i of '{var}'"
+                    if (bool(bad),) + key in reported:
+                        continue
+                    reported.add((bool(bad),) + key)
+                    total += 1
+                    if bad:
+                        res.violation("C07.R3", fi, builds[-1].node, bad, key_extra=f"{name}-{var}-wrong-role")
+                    else:
+                        res.ok("C07.R3", res.site(fi, f"{unparse(ev.node)[:50]} / {var}"), f"preceded by build_trees({'config edges' if want_binned else 'None'}) on every path where {var} is given")
     if total < 10:
         raise AnalysisError(f"C07.R3: only {total} (count, catalog) obligations found, minimum 10")
 
